@@ -515,6 +515,28 @@ pub fn gen_point(rng: &mut SplitMix, n: usize) -> Vec<u64> {
 pub fn gen_edge_data(rng: &mut SplitMix, spec: &GraphSpec) -> EdgeData {
     let small: [f64; 11] = [0.0, 0.5, -0.5, 1.0, -1.0, 0.25, 2.0, -3.0, 1.0 / 3.0, 0.1, 7.0];
     let zero_shifts = rng.chance(1, 6);
+    // one call in 14: extreme kinematics (finite, but far outside the usual range:
+    // squares under- or overflow, rescaling guards and anything they remember)
+    let extreme = rng.chance(1, 14);
+    let wild: [f64; 10] = [1e-160, 1e150, -1e-200, 1e120, 1e-320, 0.0, -1e155, 3e-110, 1e100, 1e-100];
+    if extreme {
+        let all = rng.chance(1, 2);
+        return spec
+            .edges
+            .iter()
+            .map(|e| {
+                let mass = if e.massive {
+                    Some(if all || rng.chance(1, 3) { rng.pick(&wild).abs().to_bits() } else { 1.0f64.to_bits() })
+                } else {
+                    None
+                };
+                let shift = (0..spec.d)
+                    .map(|_| if all || rng.chance(1, 3) { rng.pick(&wild).to_bits() } else { rng.pick(&small).to_bits() })
+                    .collect();
+                (mass, shift)
+            })
+            .collect();
+    }
     spec.edges
         .iter()
         .map(|e| {
